@@ -12,7 +12,7 @@ from typing import Any
 from fsverif import core
 
 FRESH = ["lazy-import-inside-block", "from-import-extra-target-not-yet-loaded", "command-line-script", "nested-attempts", "body-exception",
-         "extra-targets-in-a-module-imported-by-another-target", "open-transaction-at-exit-with-db-path"]
+         "extra-targets-in-a-module-imported-by-another-target", "open-transaction-at-exit-with-db-path", "refused-nested-attempt-with-unloaded-extra-target"]
 PRES = ["nothing-imported", "connector-imported", "pandas_tools-imported"]
 
 PRELUDE = '''
@@ -141,6 +141,33 @@ for how in ("normal", "exception"):
         c2 = snowflake.connector.connect(database="db1", schema="s1")
         rows = c2.cursor().execute("select count(*) from t").fetchall()
         check(f"uncommitted-row-absent-after-{how}-exit", rows == [(0,)], rows)
+''',
+    "refused-nested-attempt-with-unloaded-extra-target": '''
+sys.path.insert(0, __TARGETS__)
+import snowflake.connector, snowflake.connector.pandas_tools as pt
+for how in ("normal", "exception"):
+    try:
+        with fakesnow.patch():
+            try:
+                with fakesnow.patch(["fsverif_helper_b.connect", "fsverif_helper_b.write_pandas"]):
+                    check(f"nested-attempt-refused-{how}", False, "entered")
+            except AssertionError:
+                pass
+            if how == "exception":
+                raise KeyError("boom")
+    except KeyError:
+        pass
+    hb = sys.modules.get("fsverif_helper_b")
+    if hb is not None:
+        check(f"module-imported-by-refused-attempt-holds-originals-{how}", hb.connect is snowflake.connector.connect and hb.write_pandas is pt.write_pandas,
+              f"{type(hb.connect).__name__} / {type(hb.write_pandas).__name__}")
+    check(f"connect-restored-{how}", type(snowflake.connector.connect).__name__ == "function")
+try:
+    with fakesnow.patch(["fsverif_helper_b.connect", "fsverif_helper_b.write_pandas"]):
+        import fsverif_helper_b as hb2
+        check("fakes-work-inside-later-proper-patch", use_fakes(hb2.connect, hb2.write_pandas))
+except Exception as e:
+    check("fakes-work-inside-later-proper-patch", False, f"{type(e).__name__}: {e}")
 ''',
     "nested-attempts": '''
 import snowflake.connector
